@@ -34,6 +34,14 @@ def lib_port_names(proto: int, platform: str, version: str = "0") -> Dict[str, i
     return _names_cache[key]
 
 
+PLATFORM_ALIASES = {"ios": ["ios", "ios", "cisco_ios"], "nxos": ["nxos", "nxos", "cisco_nxos", "cnx"]}
+
+
+def alias_st(platform: str):
+    """A documented spelling of the platform argument (the canonical name most of the time)."""
+    return st.sampled_from(PLATFORM_ALIASES[platform])
+
+
 def names_fn(platform: str, version: str = "0"):
     return lambda proto: lib_port_names(proto, platform, version)
 
@@ -410,7 +418,8 @@ def ace_st(draw, platform: str = "ios", version: str = "0", kmax: int = 4, group
     if draw(st.integers(0, 9)) < 2:
         rec["logs"] = [draw(st.sampled_from(["log", "log-input"]))]
     if opaque and draw(st.integers(0, 9)) < 2:
-        rec["opq"] = draw(st.sampled_from([["fragments"], ["dscp", "ef"], ["precedence", "critical"]]))
+        rec["opq"] = draw(st.sampled_from([["fragments"], ["dscp", "ef"], ["precedence", "critical"], ["dscp", "af31"],
+                                           ["dscp", "cs5"], ["time-range", "after6pm"], ["match-any", "tos", "max-throughput"]]))
     if rec["logs"] and (rec["flags"] or rec["opq"]) and draw(st.booleans()):
         rec["lf"] = True
     if noise and draw(st.integers(0, 9)) < 3:
@@ -572,7 +581,7 @@ def mutate_ace(draw, rec: dict, platform: str, version="0", kmax=4, groups=False
         elif fm < 6:
             flags = flags[:-1]
         elif fm < 8:
-            pool = TCP_FLAGS + (["established"] if established else [])
+            pool = TCP_FLAGS + (["established", "established", "established"] if established else [])
             extra = draw(st.sampled_from(pool))
             if extra not in flags:
                 flags = flags + [extra]
@@ -653,7 +662,7 @@ def render_acl(case, noise: bool = True) -> str:
 
 def acl_kwargs(case) -> dict:
     kw = dict(platform=case["platform"])
-    for key in ("version", "port_nr", "protocol_nr", "group_by", "indent"):
+    for key in ("version", "port_nr", "protocol_nr", "group_by", "indent", "max_ncwb"):
         if case.get(key) not in (None, "", False):
             kw[key] = case[key]
     return kw
